@@ -1,5 +1,6 @@
 import argparse
 import random
+import re
 import math
 import sys
 
@@ -167,28 +168,46 @@ def to_puzz_link_url(height, width, pos):
     return "https://puzz.link/p?compass/{}/{}/{}".format(width, height, util.encode_array(problem))
 
 
+_PUZZ_LINK_URL_REG = re.compile(r"https?://[^/]+/p(?:\.html)?\?compass/(\d+)/(\d+)/(.*)")
+
+
+def _parse_hex(s):
+    if len(s) == 0 or any(c not in "0123456789abcdef" for c in s):
+        raise ValueError("invalid clue value: {}".format(s))
+    return int(s, 16)
+
+
 def parse_puzz_link_url(url):
-    width, height, body = url.split("/")[-3:]
-    height = int(height)
-    width = int(width)
+    m = _PUZZ_LINK_URL_REG.match(url)
+    if m is None:
+        raise ValueError("not a compass URL")
+    width = int(m[1])
+    height = int(m[2])
+    body = m[3]
+    if height <= 0 or width <= 0:
+        raise ValueError("board size must be positive")
 
     pos = 0
     i = 0
     res = []
     while i < len(body):
-        if ord(body[i]) >= ord("g"):
+        if "g" <= body[i] <= "z":
             pos += ord(body[i]) - ord("f")
             i += 1
         else:
             num = [-1, -1, -1, -1]
             for j in range(4):
+                if i >= len(body):
+                    raise ValueError("truncated clue")
                 if body[i] == "-":
-                    num[j] = int(body[i + 1 : i + 3], 16)
+                    num[j] = _parse_hex(body[i + 1 : i + 3].ljust(2, "?"))
                     i += 3
                 else:
                     if body[i] != ".":
-                        num[j] = int(body[i], 16)
+                        num[j] = _parse_hex(body[i])
                     i += 1
+            if pos >= height * width:
+                raise ValueError("clue outside the board")
             res.append((pos // width, pos % width, num[0], num[2], num[1], num[3]))
             pos += 1
     return height, width, res
